@@ -3,7 +3,15 @@ package main
 // splitmix64: every random choice of a run derives from one seed.
 type RNG struct{ s uint64 }
 
-func NewRNG(seed uint64) *RNG { return &RNG{s: seed*0x9E3779B97F4A7C15 + 0x1234567} }
+// NewRNG scrambles the seed (one splitmix64 output step) so that the streams of neighbouring seeds
+// are unrelated: the state advances by the golden-ratio increment per draw, and an unscrambled
+// seed*increment start would make seed n+1 the same stream as seed n shifted by one draw.
+func NewRNG(seed uint64) *RNG {
+	z := seed + 0x9E3779B97F4A7C15
+	z = (z ^ (z >> 30)) * 0xBF58476D1CE4E5B9
+	z = (z ^ (z >> 27)) * 0x94D049BB133111EB
+	return &RNG{s: z ^ (z >> 31)}
+}
 
 func (r *RNG) U64() uint64 {
 	r.s += 0x9E3779B97F4A7C15
